@@ -139,6 +139,12 @@ func (os *ObjectStream) parseHeader() error {
 	headerData := os.decoded[:os.first]
 	parser := NewParser(bytes.NewReader(headerData))
 
+	// Every header pair takes at least four bytes ("1 0 "), so /N cannot exceed
+	// a quarter of the header; this also keeps the allocation below proportional
+	// to the data instead of to an attacker-chosen number.
+	if os.n > os.first/4+1 {
+		return fmt.Errorf("object count %d does not fit in a %d-byte header", os.n, os.first)
+	}
 	os.offsets = make([]objectStreamOffset, 0, os.n)
 
 	for i := 0; i < os.n; i++ {
@@ -160,6 +166,10 @@ func (os *ObjectStream) parseHeader() error {
 		offset, ok := offsetObj.(Int)
 		if !ok {
 			return fmt.Errorf("offset %d is not an integer: %T", i, offsetObj)
+		}
+
+		if offset < 0 || int(offset) > len(os.decoded)-os.first {
+			return fmt.Errorf("offset %d of object %d lies outside the object stream", int(offset), i)
 		}
 
 		os.offsets = append(os.offsets, objectStreamOffset{
@@ -205,6 +215,10 @@ func (os *ObjectStream) GetObjectByIndex(index int) (Object, int, error) {
 		return nil, 0, fmt.Errorf("object offset %d exceeds decoded data length %d", offset, len(os.decoded))
 	}
 	if endOffset > len(os.decoded) {
+		endOffset = len(os.decoded)
+	}
+	if endOffset < offset {
+		// Offsets are not required to be increasing; read to the end of the data
 		endOffset = len(os.decoded)
 	}
 
